@@ -40,9 +40,12 @@ def cmd_impls(names):
         o.append(f"    //@ item exp:zvt | impl zvt_builder::ZvtCommand for {short} | mod={expmod} selfty=crate::packets::{short}")
     return o
 allp=list(P.keys())
-open('/verif/spec/units/u3_pk_ser.tpl','w').write("\n".join(ser_impls(allp))+"\n")
+# packet types outside every reply set: they exist so that naming one of them in a reply enum is an obligation
+# (its identity is none of the table's) instead of a compile error
+others=t.get('other_packets',[])
+open('/verif/spec/units/u3_pk_ser.tpl','w').write("\n".join(ser_impls(allp+others))+"\n")
 open('/verif/spec/units/u3_cmd_io.tpl','w').write("\n".join(cmd_impls(['packets::Ack']))+"\n")
-open('/verif/spec/units/u3_cmd_seqs.tpl','w').write("\n".join(cmd_impls([k for k in allp if k!='packets::Ack']))+"\n")
+open('/verif/spec/units/u3_cmd_seqs.tpl','w').write("\n".join(cmd_impls([k for k in allp+others if k!='packets::Ack']))+"\n")
 bymod={}
 for e in t['enums']:
     bymod.setdefault(e['mod'],[]).append(e)
